@@ -541,6 +541,6 @@ pub fn c06_case(max_calls: usize) -> BoxedStrategy<Case> {
 
 pub fn run(ctx: &Ctx) {
     ctx.replay_findings(&oracle);
-    ctx.search("two-parsers-histories", ctx.n(60_000, 2_000_000), &|| c06_case(6), &oracle);
-    ctx.search("longer-histories", ctx.n(6_000, 200_000), &|| c06_case(14), &oracle);
+    ctx.search("two-parsers-histories", ctx.n(120_000, 10_000_000), &|| c06_case(6), &oracle);
+    ctx.search("longer-histories", ctx.n(10_000, 1_000_000), &|| c06_case(14), &oracle);
 }
